@@ -206,7 +206,12 @@ class World:
             m = re.fullmatch(r'<impl (.+)>', ty)
             if m: ty = m.group(1)
             quals = segs[:-2]
-            return self._find_method('::'.join(quals + [ty]), None, meth, from_crate, None)
+            r = self._find_method('::'.join(quals + [ty]), None, meth, from_crate, None)
+            if r is not None: return r
+            for k in range(1, len(segs)):           # a longer path than the trimmed one MIR printed for the definition
+                hits = self.free.get('::'.join(segs[k:]), [])
+                if hits: return self._pick(hits, from_crate, g)
+            return None
         hits = self.free.get(g, [])
         return self._pick(hits, from_crate, g)
 
@@ -387,7 +392,7 @@ class Exec:
         for vid in vids:
             if vid in s.dom and vid not in s.entangled:
                 c = s.dom_constraint(vid)
-                if c is not None: s.solver.add(c)
+                if c is not None: s.solver.add(c); s.pc.append(c)
             s.entangled.add(vid)
 
     def _apply_unary(s, u):
